@@ -92,6 +92,18 @@ def run(ctx):
                 eq("vectorises-elementwise", float(wide[1]) + 1e-3, one + 1e-3, tol=3000)
             wo = ook.theory_BER(np.array([mu, 1000 * mu]), np.array([s0, 1000 * s0]), np.array([s1, 1000 * s1]))
             eq("vectorises-elementwise", float(wo[1]), v, tol=2000)
+            # sweeps that start at a degenerate point (no noise at all; an essentially error-free point): the other elements are untouched
+            with np.errstate(all="ignore"):
+                sw0 = ook.theory_BER(mu, np.array([0.0, s0, 2 * s0]), np.array([0.0, s1, 2 * s1]))
+                swp = ppm.theory_BER(mu, np.array([0.0, s0, 2 * s0]), np.array([0.0, s1, 2 * s1]), M, "hard")
+                sws = ppm.theory_BER(np.array([60 * (s0 + s1), mu, 1.5 * mu]), s0, s1, M, "soft")
+                swh = ook.theory_BER(np.array([200 * (s0 + s1), mu]), s0, s1)
+            eq("vectorises-elementwise", float(sw0[1]), v)
+            eq("vectorises-elementwise", float(sw0[2]), float(ook.theory_BER(mu, 2 * s0, 2 * s1)))
+            eq("vectorises-elementwise", float(swp[1]), hard)
+            eq("vectorises-elementwise", float(sws[1]) + 1e-3, soft + 1e-3, tol=3000)
+            eq("vectorises-elementwise", float(sws[2]) + 1e-3, float(ppm.theory_BER(1.5 * mu, s0, s1, M, "soft")) + 1e-3, tol=3000)
+            eq("vectorises-elementwise", float(swh[1]), v)
             # monotone in mu
             ladder = [mu * f for f in (0.5, 0.8, 1.0, 1.3, 2.0)]
             for fn, name in ((lambda m: ook.theory_BER(m, s0, s1), "ook"), (lambda m: ppm.theory_BER(m, s0, s1, M, "soft"), "soft"), (lambda m: ppm.theory_BER(m, s0, s1, M, "hard"), "hard")):
@@ -118,6 +130,14 @@ def run(ctx):
             t1, t2 = float(ook.THRESHOLD_EST(e1)), float(ook.THRESHOLD_EST(e2))
             eq("threshold-translation-equivariant", (t2 - t1 - c) / mu + 1, 1.0, tol=400000)      # equal up to a few steps of the 1000-point threshold grid
             ev("inside", "threshold-inside-[mu0,mu1]", lo=sci(mu0 + 100), x=sci(t1 + 100), hi=sci(mu0 + mu + 100))
+            # the same eye in other units (a photocurrent of tens of nA, microvolts, kilovolts)
+            for al_ in (1e-7, 1e-5, 1e3):
+                ea = eye(mu0=al_ * mu0, mu1=al_ * (mu0 + mu), s0=al_ * s0, s1=al_ * s1)
+                eq("threshold-covariant-under-a-change-of-units", (float(ook.THRESHOLD_EST(ea)) / al_ - mu0) / mu + 1, (t1 - mu0) / mu + 1, tol=400000)
+                eq("threshold-covariant-under-a-change-of-units", (float(ppm.THRESHOLD_EST(ea, M)) / al_ - mu0) / mu + 1, (float(ppm.THRESHOLD_EST(e1, M)) - mu0) / mu + 1, tol=400000)
+                ba = float(ook.BER_analizer("estimator", eye_obj=ea))
+                if b1 > 1e-200:
+                    eq("estimator-translation-invariant", ba, b1, tol=20000)
             tp = float(ppm.THRESHOLD_EST(e1, M))
             # the same eye object queried for several orders in turn: each answer only depends on (mu0, mu1, s0, s1, M)
             for Mq in (4, 64, 2, M):
